@@ -5,6 +5,7 @@
  * iv_avl_tree_min/next and max/prev traverse exactly the in-order sequence.
  */
 #include <stdio.h>
+#include <unistd.h>
 #include <stdlib.h>
 #include <string.h>
 #include <iv_avl.h>
@@ -86,6 +87,7 @@ int main(void)
 
 	tree.compare = cmp;
 	tree.root = NULL;
+	alarm(60);	/* watchdog: a library call that does not return ends the run with SIGALRM */
 	while (fgets(line, sizeof(line), stdin) != NULL) {
 		char *op = strtok(line, " \n");
 		if (op == NULL) continue;
@@ -118,12 +120,22 @@ int main(void)
 			printf("\n");
 		} else if (!strcmp(op, "trav")) {
 			struct iv_avl_node *an;
-			int c = 0;
+			int c = 0, lim;
+			/* a traversal of n nodes that takes more than n steps does not terminate: cut it and say so */
+			nnodes = 0;
+			check_parents(tree.root, NULL);
+			lim = nnodes + 1;
 			printf("TRAV");
-			iv_avl_tree_for_each (an, &tree) { printf(" %ld", ((struct n *)an)->key); c++; }
-			printf("\nRTRAV");
-			for (an = iv_avl_tree_max(&tree); an != NULL; an = iv_avl_tree_prev(an))
+			iv_avl_tree_for_each (an, &tree) {
+				if (c++ >= lim) { printf(" NONTERMINATING"); break; }
 				printf(" %ld", ((struct n *)an)->key);
+			}
+			printf("\nRTRAV");
+			c = 0;
+			for (an = iv_avl_tree_max(&tree); an != NULL; an = iv_avl_tree_prev(an)) {
+				if (c++ >= lim) { printf(" NONTERMINATING"); break; }
+				printf(" %ld", ((struct n *)an)->key);
+			}
 			printf("\n");
 		} else {
 			printf("bad-op\n");
